@@ -248,6 +248,25 @@ func forkCase(mode string, p, x, y int, crashLast bool) []string {
 	return lines
 }
 
+// heavyCase: branch A of n blocks with t transfers each is imported, displaced by a sibling B1 (solo adopts it), then
+// re-adopted by the import of A(n+1): that one WriteBlockWithState stages n*t lookups and n+1 canonical hashes.
+func heavyCase(n, t int) []string {
+	lines := []string{"MODE solo"}
+	var txs []string
+	for i := 0; i < t; i++ {
+		txs = append(txs, fmt.Sprintf("%d-%d-1", i%nKeys, (i+1)%nKeys))
+	}
+	spec := strings.Join(txs, ",")
+	call := "I"
+	for i := 1; i <= n; i++ {
+		lines = append(lines, fmt.Sprintf("N %d %d 1 2 %s", i, i-1, spec))
+		call += fmt.Sprintf(" %d", i)
+	}
+	lines = append(lines, fmt.Sprintf("N %d %d 1 2 -", n+1, n), fmt.Sprintf("N %d 0 2 2 -", n+2))
+	lines = append(lines, call, fmt.Sprintf("I %d", n+2), fmt.Sprintf("I %d", n+1), "X 2", fmt.Sprintf("P expecthead %d", n+1))
+	return lines
+}
+
 // exhaustive small family: one fixed tree (trunk 1-2-3 with transactions, fork 4-5-6-7 from genesis sharing the
 // first transaction), segments offered in every order.
 func smallFamily(mode string) [][]string {
